@@ -1,13 +1,14 @@
 #!/bin/sh
 # usage: try_seeded.sh <seeded-id> <property> [tier]   -- applies the seeded change to /repo, runs the check, reverts.
 ID=$1; PROP=$2; TIER=${3:-quick}
+P=/verif/seeded/$ID/patch.diff; [ -f /verif/seeded/$ID/patch.rebased.diff ] && P=/verif/seeded/$ID/patch.rebased.diff
 cd /repo || exit 2
-if ! git apply --check /verif/seeded/$ID/patch.diff 2>/dev/null; then
-  if ! git apply --3way /verif/seeded/$ID/patch.diff 2>/dev/null; then echo "PATCH DOES NOT APPLY: $ID"; git checkout -- . ; exit 3; fi
+if ! git apply --check $P 2>/dev/null; then
+  if ! git apply --3way $P 2>/dev/null; then echo "PATCH DOES NOT APPLY: $ID"; git reset -q --hard HEAD; exit 3; fi
   git reset -q
 else
-  git apply /verif/seeded/$ID/patch.diff
+  git apply $P
 fi
 cd /verif && ./check $PROP --tier $TIER 2>&1 | grep -v "^build ok" | cut -c1-400 | tail -${TAILN:-6}
-git -C /repo checkout -- .
+git -C /repo reset -q --hard HEAD
 git -C /repo status --short | head -3
